@@ -320,6 +320,9 @@ def run_property(prop, tier, seed, workers=None, examples=None, shrink=None):
     if hasattr(mod, "enumerate_cases") and budget.get("enumerate", True):
         eshards = budget.get("enum_shards", nshards)
         jobs += [(prop, tier, seed, k, eshards, 0, excluded, shrink, "enum") for k in range(eshards)]
+    opt = None
+    if n > 0 and budget.get("opt_shard", True) and os.environ.get("VERIF_OPT_SHARD", "1") != "0":
+        opt = _start_opt_child(prop, tier, seed, nshards, max(20, n // budget.get("opt_divisor", 2)), excluded, shrink)
     if workers <= 1 or len(jobs) == 1:
         results = [_worker(j) for j in jobs]
     else:
@@ -349,6 +352,18 @@ def run_property(prop, tier, seed, workers=None, examples=None, shrink=None):
         else:
             total.merge(payload)
             found.extend(f)
+    opt_sigs = set()
+    if opt is not None:
+        status, payload, f = _collect_opt_child(opt)
+        if status == "error":
+            errors.append("python -O shard: " + payload)
+        else:
+            total.counters["cases_under_python_O"] = payload.evaluations
+            total.merge(payload)
+            for sig, msg, case in f:
+                if sig not in {s for s, _, _ in found}:
+                    opt_sigs.add(sig)
+                found.append((sig, msg, case))
     fuzz_info = None
     if budget.get("fuzz_runs") and examples is None and not errors:
         fuzz_info = run_fuzz(prop, tier, seed, budget["fuzz_runs"], budget.get("fuzz_children", workers), excluded | {s for s, _, _ in found}, total, found)
@@ -364,7 +379,7 @@ def run_property(prop, tier, seed, workers=None, examples=None, shrink=None):
         lines.append(f"KNOWN-FINDING: property={prop} signature={sig} {text}")
     replays = []
     for sig, (msg, case, _size) in sorted(by_sig.items()):
-        path = write_replay(prop, sig, msg, case)
+        path = write_replay(prop, sig, msg, case, python_O=sig in opt_sigs)
         replays.append(path)
         lines.append(f"VIOLATION property={prop} replay={path}")
         lines.append(f"  signature={sig}")
@@ -400,14 +415,46 @@ def run_property(prop, tier, seed, workers=None, examples=None, shrink=None):
     return 0
 
 
-def write_replay(prop, sig, msg, case):
+def write_replay(prop, sig, msg, case, python_O=False):
     d = os.path.join(ROOT, "replays", prop)
     os.makedirs(d, exist_ok=True)
     h = hashlib.sha1((sig + canon(case)).encode()).hexdigest()[:16]
     path = os.path.join(d, f"{h}.json")
+    rec = {"property": prop, "signature": sig, "message": msg, "case": enc(case)}
+    if python_O:
+        rec["python_O"] = True  # seen only by the shard run under `python -O`; the replay re-executes itself with -O
     with open(path, "w") as f:
-        json.dump({"property": prop, "signature": sig, "message": msg, "case": enc(case)}, f, indent=1, sort_keys=True)
+        json.dump(rec, f, indent=1, sort_keys=True)
     return os.path.relpath(path, ROOT)
+
+
+def _start_opt_child(prop, tier, seed, nshards, n, excluded, shrink):
+    import subprocess
+    import tempfile
+
+    tmp = tempfile.mkdtemp(prefix="optshard.")
+    out = os.path.join(tmp, "out.pkl")
+    cmd = [sys.executable, "-O", os.path.join(ROOT, "lib", "opt_child.py"), prop, tier, str(seed), str(nshards), str(nshards + 1),
+           str(n), "1" if shrink else "0", out] + sorted(excluded)
+    env = dict(os.environ, PYTHONHASHSEED="0")
+    env.pop("PYTHONOPTIMIZE", None)
+    p = subprocess.Popen(cmd, cwd=ROOT, stdout=subprocess.DEVNULL, stderr=subprocess.PIPE, env=env)
+    return tmp, out, p
+
+
+def _collect_opt_child(opt):
+    import pickle
+    import shutil
+
+    tmp, out, p = opt
+    try:
+        _o, err = p.communicate()
+        if not os.path.exists(out):
+            return ("error", f"no result (rc={p.returncode}): {err.decode(errors='replace')[-400:]}", [])
+        with open(out, "rb") as f:
+            return pickle.load(f)
+    finally:
+        shutil.rmtree(tmp, ignore_errors=True)
 
 
 def run_fuzz(prop, tier, seed, runs, children, excluded, total, found):
@@ -493,6 +540,8 @@ def replay(prop, path):
     sys.path.insert(0, ROOT)
     mod = importlib.import_module(f"props.{prop.lower()}")
     data = json.load(open(path))
+    if isinstance(data, dict) and data.get("python_O") and not sys.flags.optimize:
+        os.execv(sys.executable, [sys.executable, "-O"] + sys.argv)
     case = dec(data["case"]) if "case" in data else dec(data)
     open_known, _ = load_known(prop)
     ctx = Ctx(open_known)
